@@ -36,7 +36,8 @@ func newEnv(seed uint64, dist hx.Counter) *env {
 	e := &env{r: hx.NewRng(seed), acc: map[string]int64{}, accName: map[int64]string{}, den: map[string]int64{}, denName: map[int64]string{},
 		spools: map[string]int64{}, dapps: map[string]int64{}, colls: map[string]int64{}, recs: map[string]int64{}, dist: dist,
 		shareSet: map[int64][2]int64{}}
-	e.c = abci.NewChain(abci.Config{Accounts: NACC, Validators: 2, Seed: 7})
+	// the default UBI record alone exceeds the default hard cap, so no UBI proposal could pass: the cap is raised in the genesis
+	e.c = abci.NewChain(abci.Config{Accounts: NACC, Validators: 2, Seed: 7, Gov: func(g *govtypes.GenesisState) { g.NetworkProperties.UbiHardcap = 60_000_000 }})
 	for name, id := range moduleIDs {
 		a := authtypes.NewModuleAddress(name).String()
 		e.acc[a] = id
@@ -85,7 +86,8 @@ func (e *env) setup() {
 	}, nil, nil, map[string]interface{}{"what": "basket 1 (ubtc x2, xeth x1)"})
 	mk := spendingtypes.NewMsgCreateSpendingPool("sp1", 0, 0, sdk.NewDecCoins(sdk.NewDecCoinFromDec("ukex", sdk.NewDecWithPrec(5, 1)), sdk.NewDecCoinFromDec("ubtc", sdk.NewDecWithPrec(1, 1))),
 		sdk.NewDecWithPrec(33, 2), 300, 300, spendingtypes.PermInfo{OwnerAccounts: []string{e.addr(2)}},
-		spendingtypes.WeightedPermInfo{Accounts: []spendingtypes.WeightedAccount{{Account: e.addr(3), Weight: sdk.OneDec()}, {Account: e.addr(4), Weight: sdk.NewDec(2)}}},
+		spendingtypes.WeightedPermInfo{Accounts: []spendingtypes.WeightedAccount{{Account: e.addr(3), Weight: sdk.OneDec()}, {Account: e.addr(4), Weight: sdk.NewDec(2)}},
+			Roles: []spendingtypes.WeightedRole{{Role: uint64(govtypes.RoleSudo), Weight: sdk.NewDecWithPrec(15, 1)}}}, // a0 holds role sudo
 		e.accAddr(2), false, 0)
 	mk.ClaimExpiry = 10_000_000
 	e.tx("setup", 2, []sdk.Msg{mk}, nil, map[string]interface{}{"what": "spending pool sp1"})
@@ -96,8 +98,13 @@ func (e *env) setup() {
 	d := l2types.Dapp{Name: "dapp1", Denom: "dp1", Pool: l2types.LpPoolConfig{Ratio: sdk.NewDecWithPrec(5, 1), Drip: 100},
 		Issuance:   l2types.IssuanceConfig{Premint: sdk.NewInt(10), Postmint: sdk.NewInt(10)},
 		VoteQuorum: sdk.NewDecWithPrec(3, 1), PoolFee: sdk.NewDecWithPrec(1, 2), TeamReserve: e.addr(5), TotalBond: coin("ukex", 0)}
-	e.tx("dapp_create", 2, []sdk.Msg{&l2types.MsgCreateDappProposal{Sender: e.addr(2), Dapp: d, Bond: coin("ukex", 20_000_000_000)}},
-		[]string{fmt.Sprintf("EscDeposit L2 %d 1 102 0 20000000000", kDapp)}, map[string]interface{}{"dapp": "dapp1", "bond": 20_000_000_000})
+	// below MinDappBond the bootstrap ends in a refund of every bond, above it in the LP-token issue (both in EndBlock)
+	bond := int64(20_000_000_000)
+	if e.r.Chance(50) {
+		bond = 2_000_000_000_000
+	}
+	e.tx("dapp_create", 2, []sdk.Msg{&l2types.MsgCreateDappProposal{Sender: e.addr(2), Dapp: d, Bond: coin("ukex", bond)}},
+		[]string{fmt.Sprintf("EscDeposit L2 %d 1 102 0 %d", kDapp, bond)}, map[string]interface{}{"dapp": "dapp1", "bond": bond})
 	e.tx("rec_issue", 1, []sdk.Msg{recoverytypes.NewMsgIssueRecoveryTokens(e.addr(1))}, nil, map[string]interface{}{"account": 1})
 	// a stake large enough to bond a collective
 	e.delegate(3, 0, "ukex", 50_000_000_000)
@@ -108,30 +115,44 @@ func (e *env) setup() {
 	e.spDeposit(2, "sp1", "ubtc", 4_000_000_000)
 	e.spRegister(3, "sp1")
 	e.spRegister(4, "sp1")
+	e.spRegister(0, "sp1")
 	e.tx("coll_create", 3, []sdk.Msg{cm}, nil, map[string]interface{}{"collective": "coll1"})
 	e.end()
 }
 
 // ---------------------------------------------------------------- operations
 func (e *env) delegate(u, v int, den string, amt int64) bool {
+	return e.delegateCoins(u, v, coins(den, amt))
+}
+
+// several denominations in one message: the model runs one operation per denomination, atomically
+func (e *env) delegateCoins(u, v int, cs sdk.Coins) bool {
 	p, found := e.poolOf(v)
 	var model []string
 	if found {
-		model = []string{fmt.Sprintf("MsDelegate %d %d %d %d", 100+u, p.Id, e.denID(den), amt)}
+		for _, c := range cs {
+			model = append(model, fmt.Sprintf("MsDelegate %d %d %d %s", 100+u, p.Id, e.denID(c.Denom), hx.ZInt(c.Amount)))
+		}
 	}
-	return e.tx("delegate", u, []sdk.Msg{mstypes.NewMsgDelegate(e.addr(u), e.valStr(v), coins(den, amt))}, model,
-		map[string]interface{}{"account": u, "validator": v, "denom": den, "amount": amt})
+	return e.tx("delegate", u, []sdk.Msg{mstypes.NewMsgDelegate(e.addr(u), e.valStr(v), cs)}, model,
+		map[string]interface{}{"account": u, "validator": v, "amounts": cs.String()})
 }
 
 func (e *env) undelegate(u, v int, den string, amt int64) bool {
+	return e.undelegateCoins(u, v, coins(den, amt))
+}
+
+func (e *env) undelegateCoins(u, v int, cs sdk.Coins) bool {
 	p, found := e.poolOf(v)
 	var model []string
 	if found {
 		id := e.c.App.MultiStakingKeeper.GetLastUndelegationId(e.ctx()) + 1
-		model = []string{fmt.Sprintf("MsUndelegate %d %d %d %d %d", 100+u, p.Id, e.denID(den), amt, id)}
+		for _, c := range cs {
+			model = append(model, fmt.Sprintf("MsUndelegate %d %d %d %s %d", 100+u, p.Id, e.denID(c.Denom), hx.ZInt(c.Amount), id))
+		}
 	}
-	return e.tx("undelegate", u, []sdk.Msg{mstypes.NewMsgUndelegate(e.addr(u), e.valStr(v), coins(den, amt))}, model,
-		map[string]interface{}{"account": u, "validator": v, "denom": den, "amount": amt})
+	return e.tx("undelegate", u, []sdk.Msg{mstypes.NewMsgUndelegate(e.addr(u), e.valStr(v), cs)}, model,
+		map[string]interface{}{"account": u, "validator": v, "amounts": cs.String()})
 }
 
 func (e *env) claimUndelegation(u int, id uint64) bool {
@@ -206,12 +227,43 @@ func (e *env) rewardAlloc(v int, pctOfFree int64) bool {
 	}, nil, alloc, map[string]interface{}{"validator": v, "rewards": rewards.String()})
 }
 
-func (e *env) basketMint(u int, den string, amt int64) bool {
-	return e.tx("basket_mint", u, []sdk.Msg{baskettypes.NewMsgBasketTokenMint(e.accAddr(u), 1, coins(den, amt))}, nil,
-		map[string]interface{}{"account": u, "deposit": coins(den, amt).String()})
+func (e *env) basketMint(u int, den string, amt int64) bool { return e.basketMintCoins(u, coins(den, amt)) }
+
+// MintBasketToken with the basket's own weights: the model computes the minted amount
+func (e *env) basketMintCoins(u int, deposit sdk.Coins) bool {
+	var model []string
+	if b, err := e.c.App.BasketKeeper.GetBasketById(e.ctx(), 1); err == nil {
+		rates, _ := b.RatesAndIndexes()
+		var deps []string
+		okAll := true
+		for _, c := range deposit {
+			w, ok := rates[c.Denom]
+			okAll = okAll && ok
+			if ok {
+				deps = append(deps, fmt.Sprintf("(%d, %s, %s)", e.denID(c.Denom), hx.ZInt(c.Amount), hx.ZBig(w.BigInt())))
+			}
+		}
+		if okAll {
+			model = []string{fmt.Sprintf("BkMintC %d 1 %s", 100+u, hx.List(deps))}
+		}
+	}
+	return e.tx("basket_mint", u, []sdk.Msg{baskettypes.NewMsgBasketTokenMint(e.accAddr(u), 1, deposit)}, model,
+		map[string]interface{}{"account": u, "deposit": deposit.String()})
 }
+
+// BurnBasketToken: the model computes the portion (burn / supply after the burn) and every withdrawal
 func (e *env) basketBurn(u int, amt int64) bool {
-	return e.tx("basket_burn", u, []sdk.Msg{baskettypes.NewMsgBasketTokenBurn(e.accAddr(u), 1, coin("b1/usd", amt))}, nil,
+	var model []string
+	if b, err := e.c.App.BasketKeeper.GetBasketById(e.ctx(), 1); err == nil {
+		var ds []string
+		for _, t := range b.Tokens {
+			if t.Withdraws {
+				ds = append(ds, fmt.Sprint(e.denID(t.Denom)))
+			}
+		}
+		model = []string{fmt.Sprintf("BkBurnC %d 1 %d %s", 100+u, amt, hx.List(ds))}
+	}
+	return e.tx("basket_burn", u, []sdk.Msg{baskettypes.NewMsgBasketTokenBurn(e.accAddr(u), 1, coin("b1/usd", amt))}, model,
 		map[string]interface{}{"account": u, "burn": amt})
 }
 func (e *env) basketSwap(u int, in string, amt int64, out string) bool {
@@ -220,18 +272,159 @@ func (e *env) basketSwap(u int, in string, amt int64, out string) bool {
 }
 
 func (e *env) spDeposit(u int, pool string, den string, amt int64) bool {
+	return e.spDepositCoins(u, pool, coins(den, amt))
+}
+func (e *env) spDepositCoins(u int, pool string, cs sdk.Coins) bool {
 	var model []string
 	if idx, ok := e.spools[pool]; ok {
-		model = []string{fmt.Sprintf("SpDeposit %d %d %d %d", 100+u, idx, e.denID(den), amt)}
+		for _, c := range cs {
+			model = append(model, fmt.Sprintf("SpDeposit %d %d %d %s", 100+u, idx, e.denID(c.Denom), hx.ZInt(c.Amount)))
+		}
 	}
-	return e.tx("sp_deposit", u, []sdk.Msg{spendingtypes.NewMsgDepositSpendingPool(pool, coins(den, amt), e.accAddr(u))}, model,
-		map[string]interface{}{"account": u, "pool": pool, "amount": coins(den, amt).String()})
+	return e.tx("sp_deposit", u, []sdk.Msg{spendingtypes.NewMsgDepositSpendingPool(pool, cs, e.accAddr(u))}, model,
+		map[string]interface{}{"account": u, "pool": pool, "amount": cs.String()})
 }
 func (e *env) spRegister(u int, pool string) bool {
 	return e.tx("sp_register", u, []sdk.Msg{spendingtypes.NewMsgRegisterSpendingPoolBeneficiary(pool, e.accAddr(u))}, nil, map[string]interface{}{"account": u, "pool": pool})
 }
+
+// the (beneficiary, duration, weight) triple ClaimSpendingPool will use for addr, as the code computes it
+func (e *env) claimTriple(p *spendingtypes.SpendingPool, addr sdk.AccAddress) (string, bool) {
+	ctx := e.ctx()
+	w := e.c.App.SpendingKeeper.GetBeneficiaryWeight(ctx, addr, *p.Beneficiaries)
+	ci := e.c.App.SpendingKeeper.GetClaimInfo(ctx, p.Name, addr)
+	if w.IsZero() || ci == nil {
+		return "", false
+	}
+	start := int64(p.ClaimStart)
+	if start < int64(ci.LastClaim) {
+		start = int64(ci.LastClaim)
+	}
+	end := ctx.BlockTime().Unix()
+	if p.ClaimEnd != 0 && end > int64(p.ClaimEnd) {
+		end = int64(p.ClaimEnd)
+	}
+	if start >= end {
+		return "", false
+	}
+	if p.DynamicRate && start < int64(p.LastDynamicRateCalcTime) {
+		start = int64(p.LastDynamicRateCalcTime)
+	}
+	dur := end - start
+	if dur > int64(p.ClaimExpiry) {
+		dur = int64(p.ClaimExpiry)
+	}
+	return fmt.Sprintf("(%d, %d, %s)", e.accID(addr.String()), dur, hx.ZBig(w.BigInt())), true
+}
+
+func (e *env) ratesCoq(p *spendingtypes.SpendingPool) string {
+	var rs []string
+	for _, r := range p.Rates {
+		rs = append(rs, fmt.Sprintf("(%d, %s)", e.denID(r.Denom), hx.ZBig(r.Amount.BigInt())))
+	}
+	return hx.List(rs)
+}
+
 func (e *env) spClaim(u int, pool string) bool {
-	return e.tx("sp_claim", u, []sdk.Msg{spendingtypes.NewMsgClaimSpendingPool(pool, e.accAddr(u))}, nil, map[string]interface{}{"account": u, "pool": pool})
+	var model []string
+	if p := e.c.App.SpendingKeeper.GetSpendingPool(e.ctx(), pool); p != nil {
+		if t, ok := e.claimTriple(p, e.accAddr(u)); ok {
+			model = []string{fmt.Sprintf("SpClaims %d %s [%s]", e.spools[pool], e.ratesCoq(p), t)}
+		}
+	}
+	return e.tx("sp_claim", u, []sdk.Msg{spendingtypes.NewMsgClaimSpendingPool(pool, e.accAddr(u))}, model, map[string]interface{}{"account": u, "pool": pool})
+}
+
+// ---------------------------------------------------------------- proposals: the real handler's Apply through the real
+// router (cache context, as the gov end-blocker calls it) on the deliver state of the block in progress
+func (e *env) proposal(kind string, content govtypes.Content, model []string, args map[string]interface{}) bool {
+	return e.direct(kind, func(ctx sdk.Context) error {
+		return e.c.App.CustomGovKeeper.GetProposalRouter().ApplyProposal(ctx, 1, content, sdk.ZeroDec())
+	}, model, nil, args)
+}
+
+// SpendingPoolWithdraw: each listed beneficiary is paid `amounts`
+func (e *env) withdrawProposal(pool string, bens []int, amounts sdk.Coins) bool {
+	var addrs, vs, am []string
+	for _, b := range bens {
+		addrs = append(addrs, e.addr(b))
+		vs = append(vs, fmt.Sprint(100+b))
+	}
+	for _, c := range amounts {
+		am = append(am, fmt.Sprintf("(%d, %s)", e.denID(c.Denom), hx.ZInt(c.Amount)))
+	}
+	var model []string
+	if idx, ok := e.spools[pool]; ok {
+		model = []string{fmt.Sprintf("SpWithdrawProp %d %s %s", idx, hx.List(vs), hx.List(am))}
+	}
+	return e.proposal("withdraw_proposal", spendingtypes.NewSpendingPoolWithdrawProposal(pool, addrs, amounts), model,
+		map[string]interface{}{"pool": pool, "beneficiaries": bens, "amounts": amounts.String()})
+}
+
+// SpendingPoolDistribution: every beneficiary (accounts, then holders of the beneficiary roles) claims
+func (e *env) distributionProposal(pool string) bool {
+	ctx := e.ctx()
+	var model []string
+	if p := e.c.App.SpendingKeeper.GetSpendingPool(ctx, pool); p != nil {
+		seen := map[string]bool{}
+		var addrs []sdk.AccAddress
+		for _, a := range p.Beneficiaries.Accounts {
+			if !seen[a.Account] {
+				seen[a.Account] = true
+				addrs = append(addrs, sdk.MustAccAddressFromBech32(a.Account))
+			}
+		}
+		for _, role := range p.Beneficiaries.Roles {
+			it := e.c.App.CustomGovKeeper.GetNetworkActorsByRole(ctx, role.Role)
+			for ; it.Valid(); it.Next() {
+				a := sdk.AccAddress(it.Value())
+				if !seen[a.String()] {
+					seen[a.String()] = true
+					addrs = append(addrs, a)
+				}
+			}
+			it.Close()
+		}
+		var ts []string
+		all := true
+		for _, a := range addrs {
+			t, ok := e.claimTriple(p, a)
+			all = all && ok
+			ts = append(ts, t)
+		}
+		if all {
+			model = []string{fmt.Sprintf("SpClaims %d %s %s", e.spools[pool], e.ratesCoq(p), hx.List(ts))}
+		}
+	}
+	return e.proposal("distribution_proposal", spendingtypes.NewSpendingPoolDistributionProposal(pool), model, map[string]interface{}{"pool": pool})
+}
+
+func (e *env) surplusProposal(target int) bool {
+	ctx := e.ctx()
+	var model []string
+	if b, err := e.c.App.BasketKeeper.GetBasketById(ctx, 1); err == nil {
+		basketAcc := authtypes.NewModuleAddress("basket")
+		if e.c.App.MultiStakingKeeper.GetDelegatorRewards(ctx, basketAcc).Empty() {
+			for _, c := range b.Surplus {
+				model = append(model, fmt.Sprintf("BkWithdrawSurplus 1 %d %d", 100+target, e.denID(c.Denom)))
+			}
+			if model == nil {
+				model = []string{fmt.Sprintf("BkWithdrawSurplus 1 %d 1", 100+target)}
+			}
+		}
+	}
+	return e.proposal("surplus_proposal", baskettypes.NewProposalBasketWithdrawSurplus([]uint64{1}, e.addr(target)), model, map[string]interface{}{"target": target})
+}
+
+func (e *env) collSendDonation(target int, amounts sdk.Coins) bool {
+	return e.proposal("coll_send_donation", collectivestypes.NewProposalCollectiveSendDonation("coll1", e.addr(target), amounts), nil,
+		map[string]interface{}{"target": target, "amounts": amounts.String()})
+}
+func (e *env) collRemove() bool {
+	return e.proposal("coll_remove", collectivestypes.NewProposalCollectiveRemove("coll1"), nil, map[string]interface{}{"collective": "coll1"})
+}
+func (e *env) ubiProposal(name string, amt, period uint64) bool {
+	return e.proposal("ubi_proposal", ubitypes.NewUpsertUBIProposal(name, 0, 0, amt, period, "sp1"), nil, map[string]interface{}{"name": name, "kex": amt, "period": period})
 }
 
 func (e *env) tipRequest(u, verifier int, tip int64) bool {
